@@ -1779,6 +1779,9 @@ func (self *BinaryServerProtocol) commandHandleListLockCommand(_ *BinaryServerPr
 		return protocol.NewCallResultCommand(command, protocol.RESULT_ERROR, "DECODE_ERROR", nil), nil
 	}
 
+	if request.DbId >= uint32(len(self.slock.dbs)) {
+		return protocol.NewCallResultCommand(command, protocol.RESULT_UNKNOWN_DB, "UNKNOWN_DB_ERROR", nil), nil
+	}
 	db := self.slock.dbs[request.DbId]
 	if db == nil {
 		return protocol.NewCallResultCommand(command, protocol.RESULT_UNKNOWN_DB, "UNKNOWN_DB_ERROR", nil), nil
@@ -1829,6 +1832,9 @@ func (self *BinaryServerProtocol) commandHandleListLockedCommand(_ *BinaryServer
 		return protocol.NewCallResultCommand(command, protocol.RESULT_ERROR, "DECODE_ERROR", nil), nil
 	}
 
+	if request.DbId >= uint32(len(self.slock.dbs)) {
+		return protocol.NewCallResultCommand(command, protocol.RESULT_UNKNOWN_DB, "UNKNOWN_DB_ERROR", nil), nil
+	}
 	db := self.slock.dbs[request.DbId]
 	if db == nil {
 		return protocol.NewCallResultCommand(command, protocol.RESULT_UNKNOWN_DB, "UNKNOWN_DB_ERROR", nil), nil
@@ -1902,6 +1908,9 @@ func (self *BinaryServerProtocol) commandHandleListWaitCommand(_ *BinaryServerPr
 		return protocol.NewCallResultCommand(command, protocol.RESULT_ERROR, "DECODE_ERROR", nil), nil
 	}
 
+	if request.DbId >= uint32(len(self.slock.dbs)) {
+		return protocol.NewCallResultCommand(command, protocol.RESULT_UNKNOWN_DB, "UNKNOWN_DB_ERROR", nil), nil
+	}
 	db := self.slock.dbs[request.DbId]
 	if db == nil {
 		return protocol.NewCallResultCommand(command, protocol.RESULT_UNKNOWN_DB, "UNKNOWN_DB_ERROR", nil), nil
